@@ -351,6 +351,136 @@ theorem drain_terminates (cfg : Path → Cfg) (caps : Path → Nat) (disc : Path
 
 
 
+/-! ### paths outside the tree never move -/
+
+/-- a component nothing has ever happened to -/
+def Fresh (s : St) : Prop := s.inp = [] ∧ s.inpClosed = false ∧ (∀ w, s.pc w = .idle) ∧ s.pending = [] ∧ s.cbs = []
+
+theorem fresh_stuck (c : Cfg) (s : St) (h : Fresh s) (a : Act) (ha : nonEnv a = true) : step c s a = none := by
+  obtain ⟨h1, h2, h3, h4, h5⟩ := h
+  cases a <;> simp [nonEnv] at ha <;> simp [step, h1, h2, h3, h4, h5]
+
+theorem pushOf_lt_K (c : Cfg) (s : St) (hl : LiveInv c s) (a : Act) (k : Nat) (x : Ev) (hp : pushOf c s a = some (k, x)) : k < c.K := by
+  cases a with
+  | send w =>
+    simp only [pushOf] at hp; og hp; og hp
+    rename_i k1 x1 todo hpc
+    split at hp <;> simp at hp
+    obtain ⟨rfl, rfl⟩ := hp
+    exact hl.todo_pc w _ hpc (k1, x1) List.mem_cons_self
+  | cbSend i =>
+    simp only [pushOf] at hp; og hp
+    rename_i k1 x1 todo hcb
+    split at hp <;> simp at hp
+    obtain ⟨rfl, rfl⟩ := hp
+    exact hl.todo_cb _ (List.mem_of_getElem? hcb) (k1, x1) List.mem_cons_self
+  | _ => simp [pushOf] at hp
+
+def OutFresh (N : Net) : Prop := ∀ p, ¬ inTree N.cfg p → Fresh (N.st p)
+
+theorem ginit_outFresh (cfg : Path → Cfg) (caps : Path → Nat) (disc : Path → Bool) : OutFresh (ginit cfg caps disc) := by
+  intro p _
+  simp [Fresh, ginit, init]
+
+/-- a step that is not the source's can only be taken by a node of the tree -/
+theorem actor_in_tree (N N' : Net) (p : Path) (a : Act) (ho : OutFresh N) (ha : nonEnv a = true) (hg : gstep N p a = some N') :
+    inTree N.cfg p := by
+  by_cases hin : inTree N.cfg p
+  · exact hin
+  · obtain ⟨_, s', hs, _⟩ := gstep_shape N N' p a hg
+    rw [fresh_stuck _ _ (ho p hin) a ha] at hs
+    cases hs
+
+theorem gstep_outFresh (N N' : Net) (p : Path) (a : Act) (ho : OutFresh N) (hl : ∀ r, LiveInv (N.cfg r) (N.st r))
+    (hg : gstep N p a = some N') : OutFresh N' := by
+  obtain ⟨hal, s', hs, hcfg, hps, hkid, hoth⟩ := gstep_shape N N' p a hg
+  -- the actor is in the tree: the source's actions happen at the root, everything else by `actor_in_tree`
+  have hpin : inTree N.cfg p := by
+    by_cases ha : nonEnv a = true
+    · exact actor_in_tree N N' p a ho ha hg
+    · cases a <;> simp [nonEnv] at ha <;> simp [allowed] at hal <;> (subst hal; trivial)
+  intro r hr
+  rw [hcfg] at hr
+  have hrp : r ≠ p := fun h => hr (h ▸ hpin)
+  by_cases hk : ∃ k, r = k :: p
+  · obtain ⟨k, rfl⟩ := hk
+    have hkK : ¬ k < (N.cfg p).K := fun h => hr ⟨hpin, h⟩
+    rw [hkid]
+    unfold kidSync
+    cases hpush : pushOf (N.cfg p) (N.st p) a with
+    | some kx =>
+      obtain ⟨k0, x⟩ := kx
+      have := pushOf_lt_K _ _ (hl p) a k0 x hpush
+      have hne : k ≠ k0 := fun h => hkK (h ▸ this)
+      simp only [hne, if_false]
+      exact ho _ hr
+    | none =>
+      simp only [hkK, decide_false, Bool.and_false, Bool.false_eq_true, if_false]
+      exact ho _ hr
+  · rw [hoth r hrp (fun k hk' => hk ⟨k, hk'⟩)]
+    unfold parSync
+    split
+    · rename_i i q0
+      split
+      · rename_i hc
+        simp only [Bool.and_eq_true, decide_eq_true_eq] at hc
+        exact absurd (hc.1 ▸ hpin.1) hr
+      · exact ho _ hr
+    · exact ho _ hr
+
+theorem reachable_outFresh (cfg : Path → Cfg) (caps : Path → Nat) (disc : Path → Bool) (sched : List (Path × Act)) (N : Net)
+    (hr : grun (ginit cfg caps disc) sched = some N) : OutFresh N := by
+  have h0 : OutFresh (ginit cfg caps disc) ∧ ∀ r, LiveInv ((ginit cfg caps disc).cfg r) ((ginit cfg caps disc).st r) :=
+    ⟨ginit_outFresh cfg caps disc, fun r => init_live _ _ _⟩
+  generalize ginit cfg caps disc = N0 at hr h0
+  induction sched generalizing N0 with
+  | nil => simp [grun] at hr; subst hr; exact h0.1
+  | cons pa rest ih =>
+    obtain ⟨p, a⟩ := pa
+    simp only [grun] at hr
+    cases hg : gstep N0 p a with
+    | none => simp [hg] at hr
+    | some N1 =>
+      rw [hg] at hr
+      exact ih N1 hr ⟨gstep_outFresh N0 N1 p a h0.1 h0.2 hg, gstep_live N0 N1 p a h0.2 hg⟩
+
+/-- every schedule without source actions is a schedule of tree steps -/
+theorem nonEnv_sched_is_tree (sched : List (Path × Act)) : ∀ (N N' : Net), OutFresh N → (∀ r, LiveInv (N.cfg r) (N.st r)) →
+    (∀ pa ∈ sched, nonEnv pa.2 = true) → grun N sched = some N' → TreeSched N.cfg sched := by
+  induction sched with
+  | nil => intro _ _ _ _ _ _ pa hpa; cases hpa
+  | cons pa rest ih =>
+    intro N N' ho hl hs hr
+    obtain ⟨p, a⟩ := pa
+    simp only [grun] at hr
+    cases hg : gstep N p a with
+    | none => simp [hg] at hr
+    | some N1 =>
+      rw [hg] at hr
+      have ha := hs (p, a) List.mem_cons_self
+      have hin := actor_in_tree N N1 p a ho ha hg
+      have hcfg := gstep_cfg N N1 p a hg
+      have hrest := ih N1 N' (gstep_outFresh N N1 p a ho hl hg) (gstep_live N N1 p a hl hg)
+        (fun pa hpa => hs pa (List.mem_cons_of_mem _ hpa)) hr
+      intro pa hpa
+      rcases List.mem_cons.1 hpa with rfl | hpa
+      · exact ⟨hin, ha⟩
+      · have := hrest pa hpa; rw [hcfg] at this; exact this
+
+/-- **termination, for every continuation without source actions** (no side condition on where the steps happen) -/
+theorem drain_terminates_any (cfg : Path → Cfg) (caps : Path → Nat) (disc : Path → Bool) (d : Nat)
+    (pre cont : List (Path × Act)) (N N' : Net)
+    (hpre : grun (ginit cfg caps disc) pre = some N) (hcont : grun N cont = some N')
+    (hd : FiniteDepth cfg d) (hW : ∀ p, 0 < (cfg p).W) (hcap : ∀ p, 1 ≤ caps p)
+    (hsrc : (N.st []).inpClosed = true) (hs : ∀ pa ∈ cont, nonEnv pa.2 = true) :
+    cont.length ≤ Phi N d ∧
+    ((∀ p a, nonEnv a = true → gstep N' p a = none) → ∀ p, inTree cfg p → Terminal (cfg p) (N'.st p)) := by
+  obtain ⟨_, hcfg, _⟩ := reachable_ginv cfg caps disc pre N hpre
+  have ht := nonEnv_sched_is_tree cont N N' (reachable_outFresh cfg caps disc pre N hpre) (reachable_live cfg caps disc pre N hpre) hs hcont
+  rw [hcfg] at ht
+  exact drain_terminates cfg caps disc d pre cont N N' hpre hcont hd hW hcap hsrc ht
+
+
 /-! ### non-vacuity -/
 /-- the hypotheses of `drain_terminates` hold for the demo tree after the source has ended, with a three-step continuation -/
 example :
